@@ -324,6 +324,93 @@ script script1 { textSet(0, 1, "world"); +10: textSet(1, 0, "again"); }
 script script2 { ins_0(); }
 ''')
 
+# --- mapfile-level competition: several unknown sections, several bad identifiers, duplicate keys
+add('competition/mapfile-unknown-sections', 'ANM_12', mapfiles=['''!anmmap
+!zzz_section
+1 a
+!aaa_section
+2 b
+!mmm_section
+3 c
+!ins_names
+900 fine
+!ins_signatures
+900 S
+'''], main_body='    fine(1);\n')
+add('competition/mapfile-bad-idents', 'ANM_12', mapfiles=['''!anmmap
+!ins_names
+900 bad-name
+901 9starts_with_digit
+902 also.bad
+!gvar_names
+10000 x-y
+10001 if
+'''], main_body='')
+add('competition/mapfile-two-files-conflicts', 'ANM_12', mapfiles=['''!anmmap
+!ins_names
+900 alpha
+901 beta
+!ins_signatures
+900 S
+901 f
+!gvar_names
+10000 ga
+10004 gb
+!gvar_types
+10000 $
+10004 %
+''', '''!anmmap
+!ins_names
+900 beta
+901 alpha
+!ins_signatures
+900 f
+901 S
+!gvar_names
+10000 gb
+10004 ga
+'''], main_body='''
+    alpha(1);
+    beta(2.0);
+    ins_900(1.5);
+    ins_901(3);
+    I1 = ga;
+    F1 = gb;
+''')
+add('competition/anm-dup-sprites-across-entries', 'ANM_12', full='''
+#pragma mapfile "map/any.anmm"
+entry {
+    path: "subdir/a.png", has_data: false, img_width: 16, img_height: 16, img_format: 3, offset_x: 0, offset_y: 0,
+    colorkey: 0, memory_priority: 0, low_res_scale: false,
+    sprites: { spA: {id: 5, x: 0.0, y: 0.0, w: 1.0, h: 1.0}, spB: {x: 0.0, y: 0.0, w: 2.0, h: 2.0}, spC: {id: 2, x: 0.0, y: 0.0, w: 3.0, h: 3.0} },
+}
+script sA { sprite(spA); sprite(spD); scriptNew(sC); }
+script 7 sB { sprite(spB); }
+entry {
+    path: "subdir/b.png", has_data: false, img_width: 16, img_height: 16, img_format: 3, offset_x: 0, offset_y: 0,
+    colorkey: 0, memory_priority: 0, low_res_scale: false,
+    sprites: { spD: {x: 0.0, y: 0.0, w: 4.0, h: 4.0}, spE: {id: 5, x: 0.0, y: 0.0, w: 5.0, h: 5.0}, spF: {id: 40, x: 0.0, y: 0.0, w: 6.0, h: 6.0} },
+}
+script sC { sprite(spE); sprite(spF); scriptNew(sA); }
+script 3 sD { sprite(spC); }
+''')
+add('competition/ecl-many-subs-and-timelines', 'ECL_06', mapfiles=['''!eclmap
+!timeline_ins_signatures
+10 S
+11 s(arg0)S
+'''], full='''
+#pragma mapfile "map/any.eclm"
+script timeline0 { ins_10(100); +10: ins_10(200); ins_11(subB, 3); +20: ins_11(subC, 4); }
+void subA() { subB(1); }
+void subB(int a) { I2 = a; subC(1.0); }
+void subC(float x) { F2 = x; subA(); }
+void subD(int a, float x) { I3 = a; F3 = x; subD(a, x); subD(3, 1.5); }
+''')
+add('competition/eosd-call-complex-args', 'ECL_06', items='''
+void subD(int a, float x) { I3 = a; F3 = x; subD(a + 1, x * 2.0); }
+void subE(int a) { subE(I0 * 2); subE(a ? 1 : 2); }
+''')
+
 # --- mission MSG (no source_test coverage): th095 and th125
 add('mission/th095', 'MSG_09', game='th095', compile_args=['--mission'], tags=['--mission'], full='''
 entry {
